@@ -666,7 +666,17 @@ func (g *GoFakeS3) createObjectBrowserUpload(bucket string, w http.ResponseWrite
 	}
 	defer infile.Close()
 
-	meta, err := metadataHeaders(r.MultipartForm.Value, g.timeSource.Now(), g.metadataSizeLimit)
+	// Form field names stand for header names and are, like those, not case
+	// sensitive: spelt as sent they would be kept next to the canonical
+	// spelling a later PUT of the same header uses, and the two would compete
+	// for the one response header.
+	fields := make(map[string][]string, len(r.MultipartForm.Value))
+	for name, values := range r.MultipartForm.Value {
+		name = textproto.CanonicalMIMEHeaderKey(name)
+		fields[name] = append(fields[name], values...)
+	}
+
+	meta, err := metadataHeaders(fields, g.timeSource.Now(), g.metadataSizeLimit)
 	if err != nil {
 		return err
 	}
@@ -683,7 +693,7 @@ func (g *GoFakeS3) createObjectBrowserUpload(bucket string, w http.ResponseWrite
 	// A browser upload carries its Content-MD5 as a form field.
 	var md5Base64 string
 	if g.integrityCheck {
-		if values, ok := r.MultipartForm.Value["Content-MD5"]; ok && len(values) > 0 {
+		if values, ok := fields[textproto.CanonicalMIMEHeaderKey("Content-MD5")]; ok && len(values) > 0 {
 			md5Base64 = values[0]
 			if md5Base64 == "" {
 				return ErrInvalidDigest
